@@ -220,12 +220,23 @@ def run(ctx):
             res.sample(dict(label=label, noise=nz.hex()[:200], frame=fr.hex() if fr else None, copies=copies,
                             outcomes=[list(o) for o in impl0[:8]]))
     producer.evaluate(res, [dict(c) for c in producer.CORPUS] + prod_cases, "C14")
+    # the whole connection (producer AND consumers) after noise that contains checksum-valid stray frames from the
+    # known non-controller addresses 0x00 / 0x56: the run of valid frames that follows reaches the device
+    producer.evaluate_pipeline(res, producer.pipeline_cases(rng, 60 if quick else 1500,
+                                                          noise_fn=lambda r: noise(r, r.choice([0, 5, 20, 60]), r.choice(["uniform", "dense", "header"]))),
+                               "C14")
     return res
 
 
 def replay(ctx):
     f = ctx["replay"].get("failure") or ctx["replay"].get("first_difference")
     i = f["input"]
+    if i.get("via") == "pipeline":
+        res = Result("C14")
+        res.rule = "replay of one recorded noise + run stream through the whole connection"
+        producer.replay_pipeline(res, i, "C14")
+        res.case(i["stream"])
+        return res
     if i.get("via") == "producer" and "script" in i:
         res = Result("C14")
         res.rule = "replay of one recorded producer run"
